@@ -2,6 +2,7 @@
 import datetime
 import gc
 import hashlib
+import io
 import json
 import linecache
 import marshal
@@ -514,6 +515,9 @@ def run_real(R, ser, op, data, reg):
     R.conv_log = []
     R.register(reg)
     res = {}
+    # a decoder that (wrongly) reaches input()/help()/print() must neither block on nor write to the check's own streams
+    old_std = sys.stdin, sys.stdout
+    sys.stdin, sys.stdout = io.StringIO(""), io.StringIO()
     try:
         REC.start()
         try:
@@ -556,6 +560,7 @@ def run_real(R, ser, op, data, reg):
         finally:
             res["events_del"] = REC.stop()
     finally:
+        sys.stdin, sys.stdout = old_std
         R.unregister(reg)
     return res
 
@@ -723,6 +728,17 @@ def _run_cases(ctx, R, cases, do_model):
                 ctx.count("not-modelled:domain")
                 continue
             effects = [] if fx == "-" else fx.split(",")
+            for e in set(effects):
+                if e.startswith("new:"):
+                    q = e[4:]
+                    fam = q if q.startswith("Pyro5.") and not q.startswith("Pyro5.errors.") else q.split(".")[0] + ".<exc>" \
+                        if not q.startswith("Pyro5.errors.") else "Pyro5.errors.<exc>"
+                    ctx.count("model-branch:new:" + ("custom" if q.startswith("custom:") else fam))
+                elif not e.startswith("conv:"):
+                    ctx.count("model-branch:" + e)
+                else:
+                    ctx.count("model-branch:conv")
+            ctx.count("model-result:" + (mres if mres.startswith("err") else "ok"))
             mconv = ",".join(e for e in effects if e.startswith("conv:"))
             mimp = {e[4:] for e in effects if e.startswith("imp:")}
             good = mres == rc and mconv == rconv and set(rimp) <= mimp
